@@ -284,8 +284,7 @@ def run_jobs(h, jobs):
         # same program
         same = p1.get("ok") and F.norm_impl(p1["stmts"]) == exp
         if not same:
-            predicted = j.get("canon_code") is None or f1 == j["canon_code"]
-            for k in (devkeys if predicted else [None]):
+            for k in devkeys:                 # the deviations Fmt.tla says touch this program (none: no key)
                 issue("reparse", k, f1=f1, want=repr(exp)[:500],
                       got=(repr(F.norm_impl(p1["stmts"]))[:500] if p1.get("ok") else p1.get("err")))
         # same comments
